@@ -100,7 +100,13 @@ def gen_harness(w, modprefix, kinds=None):
     """Rust text of `mod proofs` for one emitted module `m`; returns (text, [harness names], facts)"""
     mp = modprefix            # e.g. 'w0::'
     out = ['', '#[cfg(kani)]', 'mod proofs {', '    #![allow(unused, non_snake_case, static_mut_refs)]', '    use super::*;',
-           '    use core::mem::{size_of, align_of, offset_of};']
+           '    use core::mem::{size_of, align_of, offset_of};',
+           '    // compile-time probe: is `T: AsRef<U>` / `T: AsMut<U>` implemented?  (an inherent const shadows the trait default)',
+           '    pub struct Probe<T, U>(core::marker::PhantomData<(T, U)>);',
+           '    pub trait NoRef { const HAS_REF: bool = false; }', '    impl<T, U> NoRef for Probe<T, U> {}',
+           '    impl<T: AsRef<U>, U> Probe<T, U> { pub const HAS_REF: bool = true; }',
+           '    pub trait NoMut { const HAS_MUT: bool = false; }', '    impl<T, U> NoMut for Probe<T, U> {}',
+           '    impl<T: AsMut<U>, U> Probe<T, U> { pub const HAS_MUT: bool = true; }']
     names = []; facts = []
     items = w.items
     for path, it in sorted(items.items()):
@@ -344,16 +350,33 @@ def gen_harness(w, modprefix, kinds=None):
                     '        assert_eq!(LOG_CALLS, 1);', '        assert_eq!(LOG_ID, %d);' % sid,
                     '        assert_eq!(LOG_THIS, core::ptr::addr_of!(obj.%s) as usize);' % field, '      }', '    }']
             names.append(h)
-        # AsRef / AsMut for base fields
-        for r in regs:
-            if r[5] and r[4][0] == 'raw' and r[4][1] in items:
-                bshort = r[4][1][3:]
-                h = 'asref_%s_%s' % (nm, r[2])
-                out += ['    #[kani::proof]', '    fn %s() {' % h, '      unsafe {', '        let mut obj: %s = core::mem::zeroed();' % nm,
-                        '        let p = core::ptr::addr_of!(obj.%s) as usize;' % r[2],
-                        '        let a: &%s = obj.as_ref();' % bshort, '        assert_eq!(a as *const %s as usize, p);' % bshort,
-                        '        let b: &mut %s = obj.as_mut();' % bshort, '        assert_eq!(b as *mut %s as usize, p);' % bshort, '      }', '    }']
-                names.append(h)
+        # AsRef / AsMut: for every base type in the hierarchy, the conversion exists iff the type occurs exactly once, and then
+        # it returns the address of that sub-object
+        def hierarchy(it0, prefix):
+            res = []
+            for r in it0[4][3][1]:
+                if r[5] and r[4][0] == 'raw' and r[4][1] in items and items[r[4][1]][4][0] == 'resolved' and items[r[4][1]][4][3][0] == 'type':
+                    res.append((prefix + [r[2]], r[4][1]))
+                    res += hierarchy(items[r[4][1]], prefix + [r[2]])
+            return res
+        hs = hierarchy(it, [])
+        if hs:
+            counts = {}
+            for pth, ty in hs: counts[ty] = counts.get(ty, 0) + 1
+            lines = ['        let mut obj: %s = core::mem::zeroed();' % nm]
+            for ty in sorted(counts):
+                ushort = ty[3:]
+                lines.append('        assert_eq!(<Probe<%s, %s>>::HAS_REF, %s);' % (nm, ushort, 'true' if counts[ty] == 1 else 'false'))
+                lines.append('        assert_eq!(<Probe<%s, %s>>::HAS_MUT, %s);' % (nm, ushort, 'true' if counts[ty] == 1 else 'false'))
+                if counts[ty] == 1:
+                    pth = [p_ for p_, t_ in hs if t_ == ty][0]
+                    place = 'obj.' + '.'.join(pth)
+                    lines += ['        let p = core::ptr::addr_of!(%s) as usize;' % place,
+                              '        { let a: &%s = obj.as_ref(); assert_eq!(a as *const %s as usize, p); }' % (ushort, ushort),
+                              '        { let b: &mut %s = obj.as_mut(); assert_eq!(b as *mut %s as usize, p); }' % (ushort, ushort)]
+            h = 'asref_%s' % nm
+            out += ['    #[kani::proof]', '    fn %s() {' % h, '      unsafe {'] + lines + ['      }', '    }']
+            names.append(h)
     out.append('}')
     return '\n'.join(out), names, facts
 
